@@ -602,6 +602,55 @@ func (c *Ctx) cod7(encs []*encoder) {
 			}
 		}
 	}
+	// the condition that enables the Will in the encoder is the condition
+	// under which valid() demands a non-empty, well-formed will topic
+	if enc := c.Fn("COD-7", "(*Config).newCONNREQ"); enc != nil && valid != nil {
+		condOf := func(fn *ssa.Function, pick func(tb *ssa.BasicBlock) bool) []string {
+			var out []string
+			for _, b := range fn.Blocks {
+				iff, ok := b.Instrs[len(b.Instrs)-1].(*ssa.If)
+				if !ok {
+					continue
+				}
+				if pick(b.Succs[0]) {
+					out = append(out, Expr(iff.Cond))
+				}
+			}
+			return out
+		}
+		vc := condOf(valid, func(tb *ssa.BasicBlock) bool {
+			for _, ins := range tb.Instrs {
+				if call, ok := ins.(*ssa.Call); ok {
+					if f := call.Call.StaticCallee(); f != nil && f.Name() == "topicCheck" {
+						return true
+					}
+				}
+			}
+			return false
+		})
+		ec := condOf(enc, func(tb *ssa.BasicBlock) bool {
+			for _, ins := range tb.Instrs {
+				if call, ok := ins.(*ssa.Call); ok {
+					if arg, isLen := builtinCall(call, "len"); isLen && strings.HasSuffix(canon(arg), "Will.Topic") {
+						return true
+					}
+				}
+			}
+			return false
+		})
+		key := "COD-7|(*Config).valid/newCONNREQ|will-enabled-under-the-same-condition"
+		same := len(vc) > 0 && len(ec) > 0
+		for _, e := range ec {
+			if same && e != vc[0] {
+				same = false
+			}
+		}
+		if same {
+			c.S.OK("COD-7", key, c.P.Pos(valid.Pos()), "(*Config).valid", "topicCheck(Will.Topic) and the Will fields of CONNECT are both conditional on "+vc[0], true)
+		} else {
+			c.S.Bad("COD-7", key, c.P.Pos(valid.Pos()), "(*Config).valid", fmt.Sprintf("valid() demands a proper will topic under %v, but newCONNREQ emits the Will under %v: a Config can pass validation and still produce a CONNECT with an empty will topic", vc, ec), nil)
+		}
+	}
 	n := 0
 	for _, e := range encs {
 		if e.fn == nil {
